@@ -7,6 +7,6 @@ CONSTANTS
 INIT InitAny
 NEXT Next
 VIEW view
-INVARIANTS TypeOK StopOrderState FailurePropagates
+INVARIANTS TypeOK StopOrderState FailurePropagates FailureIsReported
 PROPERTIES StartAfterDeps StopAfterDependants
 CHECK_DEADLOCK TRUE
